@@ -142,12 +142,16 @@ def setup(c):
                      "(inval/needreload/gc/newcache/epochnm/updleader) interleaved with loc/locend/locid/range/batch/group/listids on the real "
                      "RegionCache; every lookup line carries the verdict of the property oracle evaluated on that side's own result "
                      "(containment, in-order gap-free cover, grouping, known region, no regression of the index) followed by the raw result; "
-                     "`dump` lines compare the ordered index and latestVersions; distinct = distinct op lines")
+                     "`dump` lines compare the ordered index and latestVersions; a quarter of the cases start with the directed hole family "
+                     "(3..6 regions, cache warmed over the whole key space, need-reload flag or invalidation on one or two MIDDLE regions, then "
+                     "batch/range lookups spanning them, also with ranges starting inside the flagged region and under a stale PD view); "
+                     "distinct = distinct op lines")
     c.assumptions = [
         "keys pass through CodecPDClient (memcomparable encoding, ModeTxn); the model works on raw keys (order isomorphism: C19)",
         "mu.regions is modelled as derived from the ordered index (a VerID determines the key range); checked by every dump",
         "PD answers come from mocktikv.Cluster (live or a replayed prefix); BatchScanRegions is answered by the harness from Cluster.ScanRegions per range "
         "because the mock's own BatchScanRegions skips a later unbounded range and miscounts the limit",
+        "topology ops follow mocktikv.Cluster as of /repo bd025bf (split: both halves parent epoch with version+1; merge: max(source,target)+1); modelled in Driver/C09.lean only, checked by every topology line",
         "every region has a leader (regions without leader are filtered by design: not covered); TTL expiry by wall clock is represented by invalidation",
         "no-op backoffer: a PD retry round is reported as err",
         "defaultRegionsPerBatch (128) is never reached by the generated topologies: the multi-batch loops are modelled and proved about but not exercised",
